@@ -229,3 +229,43 @@ Example C01_source_example :
     [("args", PList [PRef 0; PRef 1; PRef 2])]%string [PNone]
   = Ok ([("args", PList [PRef 0; PRef 1; PRef 2])]%string, PV VNull).
 Proof. reflexivity. Qed.
+
+(* ---------------------------------------------------------------------------------------------------------------
+   Tie by translation, executor side: Gen/SrcExec.v's exec_row_loop is regenerated on every run from the SOURCE of
+   query_execute.execute_select (the then-branch of `if query.group_indexes is None:`, selected by structure).
+   Run on any table, with the WHERE condition and the targets as opaque callables that behave as the model's
+   expressions, it leaves in `rows` exactly Exec.scan_nonagg: one list of target values per row that passes WHERE,
+   in table order. *)
+From Verif Require Import Model.PrimsExec Gen.SrcExec Proofs.SrcExec.
+
+Theorem C01_source_row_loop : forall (call_ref : nat -> list pv -> pv) (prim : string -> list pv -> PyMini.res pv)
+    (ctx_of : row -> pv) (q : query) (ks : list nat) (cw qobj : pv) (table acc : list row),
+  qobj <> PSelf -> prim "attr:table"%string [qobj] = Ok (PList (map ctx_of table)) ->
+  where_ref call_ref ctx_of q table cw ->
+  (forall r, In r table -> Forall2 (child_on call_ref ctx_of r) ks (q_targets q)) ->
+  exists s',
+    PyMini.exec_block call_ref prim
+      {| locals := [("query", qobj); ("c_where", cw); ("c_target_exprs", PList (map PRef ks));
+                    ("rows", PList (map rowl_pv acc))]%string; fields := [] |} (f_body exec_row_loop) = Ok (Next s') /\
+    lookup "rows"%string (locals s') = Some (PList (map rowl_pv (scan_nonagg q acc table))).
+Proof. exact row_loop_src. Qed.
+Print Assumptions C01_source_row_loop.
+
+(* Non-vacuity: the translated loop run by the interpreter on a 3-row table, WHERE = column 1, targets = column 0 and
+   the constant 7 (opaque callables 0, 1, 2 read the context, which is the row itself). *)
+Example C01_source_row_loop_example :
+  let cr : nat -> list pv -> pv := fun k args =>
+    match k, args with
+    | 0%nat, [PList l] => nth 1 l PNone
+    | 1%nat, [PList l] => nth 0 l PNone
+    | _, _ => PInt 7
+    end in
+  match PyMini.exec_block cr (prims_exec cr exec_nig_single exec_nig_multi 1)
+          {| locals := [("query", query_obj (PList (map rowl_pv [[VInt 1; VBool true]; [VInt 2; VNull]; [VInt 3; VBool true]]))
+                                            (PBool false) PNone);
+                        ("c_where", PRef 0); ("c_target_exprs", PList [PRef 1; PRef 2]); ("rows", PList [])]%string;
+             fields := [] |} (f_body exec_row_loop) with
+  | Ok (Next s') => lookup "rows"%string (locals s')
+  | _ => None
+  end = Some (PList [rowl_pv [VInt 1; VInt 7]; rowl_pv [VInt 3; VInt 7]]).
+Proof. vm_compute. reflexivity. Qed.
